@@ -11,7 +11,7 @@ func init() {
 		},
 		Rule:      "a case = (generated design, method, valid payload drawn per transport location) sent through the generated client to the generated server behind a real net/http server; variants: 'client' (first route), 'route' (captured request re-targeted to another designed route), 'default' (a defaulted attribute deleted from the captured wire request). Non-trivial = >=2 attributes set in >=2 locations, or a boundary-class value (URL-reserved, percent, space, non-ASCII, 64-bit extreme, empty or nested collection), or a route/default variant. Distinct = SHA-256 of method, variant and canonical payload.",
 		LevelText: "Generated-input search over designs and values: each design is translated by the real goa generators of the working tree, compiled, and executed; the payload received by the stub service is compared with the payload sent under a reference semantics written from the DSL docs (equality, declared defaults, per-location wire check on the tapped request). Exploration: designs and values are sampled, failing payloads shrink with rapid and are saved with the design.",
-		LevelNote: "Trusts the Go tool chain, net/http, rapid, and the verifier's own model/oracle (internal/model, internal/oracle) and reflection harness. Designs stay inside the oracle-complete subset (gen.Request profile); open known findings are excluded by construction and probed separately. Streaming and multipart are not exercised.",
+		LevelNote: "Trusts the Go tool chain, net/http, rapid, and the verifier's own model/oracle (internal/model, internal/oracle) and reflection harness. Designs stay inside the oracle-complete subset (gen.Request profile); open known findings are excluded by construction and probed separately. OneOf unions travel in bodies (alternatives without validations while finding C04-union-alternative-validations-not-enforced is open). Streaming and multipart are not exercised.",
 		Technique: "property-based testing (rapid): round trip through generated client and server for generated designs and payloads, location oracle on the tapped request, wire-level metamorphic variants",
 		Assumptions: []string{
 			"an empty collection and an unset one are the same Go value (nil slice/map): not told apart",
